@@ -11,6 +11,7 @@ CONSTANTS
   Catalogue <- CatQuick
   MaxHist = 3
   DecoderScope = "sharedCached"
+  EqKinds <- KindsPlain
   CopyVariant = "copy"
 INVARIANT PerIterationDecode
 CHECK_DEADLOCK FALSE
